@@ -623,6 +623,11 @@ theorem deadline_armings_have_clears :
         (c.method = s.method ∨ c.method = "SetDeadline") := by
   decide
 
+/-- **no_socket_option_calls**: the transports set no socket options (`SetLinger`, `SetNoDelay`,
+keep-alive, buffer sizes, `setsockopt`). In particular no `SO_LINGER`: closing sends FIN behind the
+bytes already accepted by `Write`, it does not reset the connection and discard them. -/
+theorem no_socket_option_calls : Gen.C16Deadlines.socketOptionCalls = [] := by decide
+
 /-! ## The wrapper's slice and error handling -/
 
 /-- `b[0:k]` of the buffer the reader filled is exactly what the reader delivered (no zero padding,
